@@ -38,6 +38,33 @@ fn clock() -> &'static Clock {
 /// only for measuring elapsed time between two reads, never as a timestamp to
 /// compare against another machine's clock.
 pub fn now_ms() -> u64 {
+    #[cfg(feature = "verif-hooks")]
+    if let Some(t) = verif_clock::get() {
+        return t;
+    }
     let c = clock();
     c.base_ms + c.anchor.elapsed().as_millis() as u64
+}
+
+/// Thread-local virtual clock for the verification harness. While a value is
+/// set on the calling thread, `now_ms()` returns it instead of the real clock.
+#[cfg(feature = "verif-hooks")]
+pub mod verif_clock {
+    use std::cell::Cell;
+
+    thread_local! {
+        static NOW: Cell<Option<u64>> = const { Cell::new(None) };
+    }
+
+    pub fn set(t: u64) {
+        NOW.with(|c| c.set(Some(t)));
+    }
+
+    pub fn clear() {
+        NOW.with(|c| c.set(None));
+    }
+
+    pub fn get() -> Option<u64> {
+        NOW.with(|c| c.get())
+    }
 }
